@@ -25,7 +25,7 @@ LEVEL = "exploration"
 FAMILY = "wire"
 PKG = "./drivers/c12/"
 DEAD_OBS = {"alive": False, "stream": "open", "gstream": "open", "hOut": True, "gOut": True,
-            "recv": 0, "eval": False, "probe": False, "throttled": False}
+            "recv": 0, "eval": False, "pub": False, "probe": False, "throttled": False, "dec": "na"}
 
 
 # ----------------------------------------------------------------------------- covering arrays
@@ -148,6 +148,9 @@ class Table:
         self.subkinds = t["subkinds"]
         self.forbidden = [tuple(x) for x in t["forbidden"]]
         self.caps = t["caps"]
+        self.mal = t["mal"]
+        self.mal_no_known = set(t["malNoKnown"])
+        self.blank_m = {k: v[0] for k, v in self.mal.items()}
         self.letters = alphabet   # replaced by Letters (alphabet + anchor-only frames) when GenWire prints them
         self.alphabet = alphabet
         self.blank = {k: v[0] for k, v in self.fields.items()}
@@ -178,7 +181,22 @@ class Table:
         return cfg, f
 
     def raw(self, kind, sub):
-        return {"kind": kind, "sub": sub, "f": dict(self.blank)}
+        return {"kind": kind, "sub": sub, "f": dict(self.blank), "m": dict(self.blank_m)}
+
+    def malformed_frames(self):
+        """The WHOLE product of the Malformed classes (it is small): every message type x unknown / known field x
+        wire type x (for length-delimited) every length class x offset 0 / > 0."""
+        out = []
+        for where in self.mal["where"]:
+            for field in self.mal["field"]:
+                if field == "known" and where in self.mal_no_known:
+                    continue
+                for wt in self.mal["wt"]:
+                    for ln in (self.mal["len"] if wt == "len" else self.mal["len"][:1]):
+                        for pre in self.mal["pre"]:
+                            out.append({"kind": "Malformed", "sub": "field", "f": dict(self.blank),
+                                        "m": {"where": where, "field": field, "wt": wt, "len": ln, "pre": pre}})
+        return out
 
 
 def build_scenarios(ctx, tab, seqs, anchors):
@@ -219,14 +237,22 @@ def build_scenarios(ctx, tab, seqs, anchors):
                           "triples_covered_fraction": round(triple_fraction(rows + extra, factors, rng, 1500), 3)}
             for row in rows + extra:
                 cfg, f = tab.split(router, row)
-                add(key, cfg, [{"kind": "Rpc", "sub": "rpc", "f": f}])
+                add(key, cfg, [{"kind": "Rpc", "sub": "rpc", "f": f, "m": dict(tab.blank_m)}])
         # framing: every broken-framing sub-kind against every protocol / peer kind / log level of this router
-        fr_factors = [("kind", [k + "/" + s for k, subs in tab.subkinds.items() if k not in ("Rpc", "Tick") for s in subs])] + \
+        fr_factors = [("kind", [k + "/" + s for k, subs in tab.subkinds.items() if k not in ("Rpc", "Tick", "Malformed") for s in subs])] + \
             tab.cfg_factors(router, only={"proto", "hpeer", "rpclog", "score", "filter"})
         for row in cover(fr_factors, rng, tab.forbidden):
             kind, sub = row["kind"].split("/")
             cfg, _ = tab.split(router, row)
             add("framing-" + router, cfg, [tab.raw(kind, sub)])
+    # malformed single fields: the whole class product, six frames per scenario (each one ends the stream, the peer
+    # opens a new one), configurations rotating over the routers and the debug logger
+    mal = tab.malformed_frames()
+    rng.shuffle(mal)
+    for n in range(0, len(mal), 6):
+        router = routers[(n // 6) % len(routers)]
+        add("malformed", dict(tab.blank_cfg, router=router, rpclog=tab.cfg["rpclog"][(n // 18) % 2]), mal[n:n + 6])
+    stats["malformed"] = {"rows": (len(mal) + 5) // 6, "frames": len(mal), "whole_product": True}
     n_single = len(scns)
 
     # sequences of named frames (all of them in the thorough tier, a seeded sample of the length-3 ones otherwise);
@@ -435,6 +461,9 @@ def frame_sig(scn, k, extra):
     fr = scn["frames"][k] if k < len(scn["frames"]) else {"kind": "Tick", "sub": "hb", "f": {}}
     # kept small on purpose: violations are de-duplicated by signature (scenario, origin and router are in the detail / replay)
     sig = {"kind": fr["kind"], "sub": fr["sub"], "validator": scn["cfg"]["validator"], "seqno": fr["f"].get("seqno", "0")}
+    if fr["kind"] == "Malformed":
+        m = fr["m"]
+        sig["mal"] = ".".join(m[k] for k in ("where", "field", "wt", "len", "pre"))
     sig.update(extra)
     return sig
 
@@ -483,7 +512,7 @@ def run(ctx):
     scns, gstats = build_scenarios(ctx, tab, seqs, anch[0])
     scn_file = os.path.join(ctx.work, "scenarios.ndjson")
     vlib.write_ndjson(scn_file, [{"id": -1, "origin": "blank", "cfg": tab.blank_cfg, "caps": tab.caps,
-                                  "frames": [{"kind": "Tick", "sub": "hb", "f": tab.blank}]}] + scns)
+                                  "frames": [{"kind": "Tick", "sub": "hb", "f": tab.blank, "m": tab.blank_m}]}] + scns)
     ctx.log("scenarios: %d (%s)" % (len(scns), ", ".join("%s=%d" % (k, v.get("rows", 0) + v.get("random_rows", 0) or v.get("replayed", 0))
                                                          for k, v in gstats.items())))
 
@@ -557,7 +586,7 @@ def run(ctx):
         sc = scns[i]
         if i not in by:
             raise vlib.Inconclusive("no reset line for crashed scenario %d" % i)
-        fr = sc["frames"][k] if k < len(sc["frames"]) else {"kind": "Tick", "sub": "hb", "f": tab.blank}
+        fr = sc["frames"][k] if k < len(sc["frames"]) else {"kind": "Tick", "sub": "hb", "f": tab.blank, "m": tab.blank_m}
         have = [ln for ln in by[i] if ln.get("e") == "frame" and ln["k"] == k]
         if e["type"] == "crash":
             by[i] = [ln for ln in by[i] if not (ln.get("e") == "frame" and ln["k"] >= k)]
@@ -565,8 +594,13 @@ def run(ctx):
                           "info": {"panic": e["panic"], "fn": e["fn"], "stack": e["stack"], "confirmed": how, "log": e["log"]}})
         elif not have:
             # a hang: the driver could not even write the line; the observation is "no answer"
+            prev = by[i][-1]   # streams as last observed: the synthesised line must only say "no answer"
+            p_h, p_g = (prev["hOut"], prev["gOut"]) if prev["e"] == "reset" else (prev["obs"]["hOut"], prev["obs"]["gOut"])
+            expect = "open" if fr["kind"] in ("Rpc", "Tick", "Empty", "Dup") else None
             by[i].append({"e": "frame", "scn": i, "k": k, "fr": fr,
-                          "obs": dict(DEAD_OBS, alive=True), "info": {"hang": True, "confirmed": how, "log": e["log"]}})
+                          "obs": dict(DEAD_OBS, alive=True, hOut=p_h, gOut=p_g), "info": {"hang": True, "confirmed": how, "log": e["log"]}})
+            if expect is None:
+                by[i][-1]["info"]["stream_unobserved"] = True
         else:
             have[0].setdefault("info", {})["confirmed"] = how
 
@@ -680,7 +714,41 @@ def run(ctx):
              # worker: signature only / inline validator; with an asynchronous validator; with the library's default capacities)
              "validation_pipeline_overfull_sync_then_probe": 0, "validation_pipeline_overfull_inline_then_probe": 0,
              "validation_pipeline_overfull_async_then_probe": 0, "validation_pipeline_overfull_default_caps_then_probe": 0,
-             "peer_outbound_queue_overfull_then_probe": 0}
+             "peer_outbound_queue_overfull_then_probe": 0,
+             # the seqno validator: distinct messages of one author with ONE numeric sequence number validated concurrently
+             # (the loser is refused in the re-check under the write lock), then the probes (local Publish included)
+             "seqno_recheck_refused_then_probes": 0, "seqno_sameprefix_inline_then_probes": 0, "seqno_replay_in_later_rpc": 0,
+             # an unknown length-delimited field whose end offset is at the int overflow boundary, top level and nested
+             "unknown_len_field_overflow_top_level": 0, "unknown_len_field_overflow_nested_message_types": 0,
+             "known_len_field_overflow_message_types": 0, "malformed_frames_decoding": 0, "malformed_frames_not_decoding": 0}
+    nested_unknown, nested_known = set(), set()
+    for i in order:
+        cfg = by[i][0]["cfg"]
+        for ln in by[i][1:]:
+            info, f, m, obs = ln.get("info", {}), ln["fr"]["f"], ln["fr"].get("m", {}), ln["obs"]
+            if not obs["alive"]:
+                continue
+            if ln["fr"]["kind"] == "Malformed":
+                reach["malformed_frames_decoding" if obs["dec"] == "yes" else "malformed_frames_not_decoding"] += 1
+                if m["wt"] == "len" and m["len"] == "ovfl1" and m["pre"] == "known" and obs["stream"] == "reset":
+                    if m["field"] == "unknown" and m["where"] == "rpc":
+                        reach["unknown_len_field_overflow_top_level"] += 1
+                    elif m["field"] == "unknown":
+                        nested_unknown.add(m["where"])
+                    else:
+                        nested_known.add(m["where"])
+            if ln["fr"]["kind"] == "Rpc" and obs["eval"] and obs["pub"] and obs["probe"] and f["nmsg"] not in ("0", "1"):
+                if info.get("seqnoRecheckRefused", 0) > 0 and f["seqrel"] == "sameprefix":
+                    reach["seqno_recheck_refused_then_probes"] += 1
+                if cfg["validator"] == "inline" and f["seqrel"] == "sameprefix" and "Deliver:h" in " ".join(info.get("ev", [])):
+                    reach["seqno_sameprefix_inline_then_probes"] += 1
+                if cfg["validator"] != "none" and f["seqrel"] == "prevprefix" and ln["k"] > 0:
+                    reach["seqno_replay_in_later_rpc"] += 1
+    reach["unknown_len_field_overflow_nested_message_types"] = len(nested_unknown)
+    reach["known_len_field_overflow_message_types"] = len(nested_known)
+    if len(nested_unknown) < len(tab.mal["where"]) - 1 and not ctx.violations:
+        raise vlib.Inconclusive("coverage obligation not met: overflowing unknown field never sent nested in %s" %
+                                sorted(set(tab.mal["where"]) - {"rpc"} - nested_unknown))
     for i in order:
         cfg, pipe_caps = by[i][0]["cfg"], by[i][0].get("pipe", {})
         for ln in by[i][1:]:
@@ -766,7 +834,7 @@ def run(ctx):
     # evidence
     nontrivial = set()
     for ln in frames:
-        if ln["fr"]["kind"] in ("TooLong", "Garbage", "Truncated", "Empty") or ln["obs"]["recv"] > 0 or not ln["obs"]["alive"]:
+        if ln["fr"]["kind"] in ("TooLong", "Garbage", "Truncated", "Empty", "Malformed", "Dup") or ln["obs"]["recv"] > 0 or not ln["obs"]["alive"]:
             nontrivial.add(json.dumps([by[ln["scn"]][0]["cfg"], ln["fr"]], sort_keys=True))
     samples = []
     for want in ("TooLong", "Garbage", "Rpc"):
